@@ -39,11 +39,13 @@ void _orc_compiler_init(void);
 void
 orc_init (void)
 {
-  static int inited = FALSE;
+  static OrcOnce once = ORC_ONCE_INIT;
+  void *unused;
 
-  if (!inited) {
-    orc_global_mutex_lock ();
-    if (!inited) {
+  /* the flag is read without the lock on the fast path, so it has to be
+   * published with release/acquire semantics: use the once protocol */
+  if (!orc_once_enter (&once, &unused)) {
+    {
       ORC_ASSERT(sizeof(OrcExecutor) == sizeof(OrcExecutorAlt));
 
       _orc_debug_init();
@@ -75,9 +77,8 @@ orc_init (void)
       orc_mips_init();
 #endif
 
-      inited = TRUE;
     }
-    orc_global_mutex_unlock ();
+    orc_once_leave (&once, NULL);
   }
 }
 
